@@ -665,12 +665,10 @@ func (idx *MergeSetIndex) getSeriesIdBySeriesKey(seriesKeyWithVersion []byte) (u
 	is := idx.getIndexSearch()
 	defer idx.putIndexSearch(is)
 
-	tsid, err = is.getTSIDBySeriesKey(seriesKeyWithVersion)
+	tsid, err = is.getLiveTSIDBySeriesKey(seriesKeyWithVersion, idx.GetDeletedTSIDs())
 
 	if err == nil {
-		if delTsidSet := idx.GetDeletedTSIDs(); delTsidSet == nil || !delTsidSet.Has(tsid) {
-			return tsid, nil
-		}
+		return tsid, nil
 	}
 
 	if err != io.EOF {
